@@ -177,3 +177,107 @@ func TestFindingC13QueryContradictoryCompFilter(t *testing.T) {
 		t.Fatalf("calendar-query with is-not-defined plus a nested filter answered %d, want 4xx", code)
 	}
 }
+
+// ---------------------------------------------------------------------------------------------
+// C08: calendar-query / calendar-multiget cross the wire without loss
+
+type recordingBackend struct {
+	findingsBackend
+	query   *CalendarQuery
+	compReq *CalendarCompRequest
+}
+
+func (b *recordingBackend) QueryCalendarObjects(ctx context.Context, path string, query *CalendarQuery) ([]CalendarObject, error) {
+	b.query = query
+	return nil, nil
+}
+
+func (b *recordingBackend) GetCalendarObject(ctx context.Context, path string, req *CalendarCompRequest) (*CalendarObject, error) {
+	b.compReq = req
+	return nil, fmt.Errorf("no such object")
+}
+
+func findingsClient(t *testing.T, b Backend) (*Client, func()) {
+	t.Helper()
+	srv := httptest.NewServer(&Handler{Backend: b})
+	c, err := NewClient(nil, srv.URL)
+	if err != nil {
+		t.Fatal(err)
+	}
+	return c, srv.Close
+}
+
+func TestFindingC08IsNotDefinedReachesBackend(t *testing.T) {
+	b := &recordingBackend{}
+	c, done := findingsClient(t, b)
+	defer done()
+	q := &CalendarQuery{CompFilter: CompFilter{Name: "VCALENDAR", Comps: []CompFilter{{Name: "VTODO", IsNotDefined: true},
+		{Name: "VEVENT", Props: []PropFilter{{Name: "LOCATION", IsNotDefined: true}, {Name: "ATTENDEE", ParamFilter: []ParamFilter{{Name: "PARTSTAT", IsNotDefined: true}}}}}}}}
+	if _, err := c.QueryCalendar(context.Background(), "/user/calendars/a/", q); err != nil {
+		t.Fatal(err)
+	}
+	got := b.query.CompFilter
+	if len(got.Comps) != 2 || !got.Comps[0].IsNotDefined {
+		t.Errorf("comp-filter is-not-defined lost: %+v", got.Comps)
+	}
+	if len(got.Comps) == 2 && (len(got.Comps[1].Props) != 2 || !got.Comps[1].Props[0].IsNotDefined) {
+		t.Errorf("prop-filter is-not-defined lost: %+v", got.Comps[1].Props)
+	}
+	if len(got.Comps) == 2 && len(got.Comps[1].Props) == 2 && (len(got.Comps[1].Props[1].ParamFilter) != 1 || !got.Comps[1].Props[1].ParamFilter[0].IsNotDefined) {
+		t.Errorf("param-filter is-not-defined lost: %+v", got.Comps[1].Props[1].ParamFilter)
+	}
+}
+
+func TestFindingC08NegateConditionReachesBackend(t *testing.T) {
+	b := &recordingBackend{}
+	c, done := findingsClient(t, b)
+	defer done()
+	q := &CalendarQuery{CompFilter: CompFilter{Name: "VCALENDAR", Comps: []CompFilter{{Name: "VEVENT", Props: []PropFilter{
+		{Name: "SUMMARY", TextMatch: &TextMatch{Text: "x", NegateCondition: true}},
+		{Name: "ATTENDEE", ParamFilter: []ParamFilter{{Name: "PARTSTAT", TextMatch: &TextMatch{Text: "y", NegateCondition: true}}}}}}}}}
+	if _, err := c.QueryCalendar(context.Background(), "/user/calendars/a/", q); err != nil {
+		t.Fatal(err)
+	}
+	props := b.query.CompFilter.Comps[0].Props
+	if props[0].TextMatch == nil || !props[0].TextMatch.NegateCondition {
+		t.Errorf("prop-filter negate-condition lost: %+v", props[0].TextMatch)
+	}
+	if len(props[1].ParamFilter) != 1 || props[1].ParamFilter[0].TextMatch == nil || !props[1].ParamFilter[0].TextMatch.NegateCondition {
+		t.Errorf("param-filter negate-condition lost")
+	}
+}
+
+func TestFindingC08QueryCompRequestReachesBackend(t *testing.T) {
+	b := &recordingBackend{}
+	c, done := findingsClient(t, b)
+	defer done()
+	q := &CalendarQuery{CompRequest: CalendarCompRequest{Name: "VCALENDAR", Props: []string{"VERSION"},
+		Comps: []CalendarCompRequest{{Name: "VEVENT", Props: []string{"SUMMARY", "UID"}}}}, CompFilter: CompFilter{Name: "VCALENDAR"}}
+	if _, err := c.QueryCalendar(context.Background(), "/user/calendars/a/", q); err != nil {
+		t.Fatal(err)
+	}
+	got := b.query.CompRequest
+	if got.Name != "VCALENDAR" || len(got.Props) != 1 || len(got.Comps) != 1 || got.Comps[0].Name != "VEVENT" || len(got.Comps[0].Props) != 2 {
+		t.Errorf("calendar-query component/property selection lost: %+v", got)
+	}
+}
+
+func TestFindingC08MultigetCompNamesAndExpandReachBackend(t *testing.T) {
+	b := &recordingBackend{}
+	c, done := findingsClient(t, b)
+	defer done()
+	start := time.Date(2024, 1, 1, 0, 0, 0, 0, time.UTC)
+	end := time.Date(2024, 2, 1, 0, 0, 0, 0, time.UTC)
+	mg := &CalendarMultiGet{Paths: []string{"/user/calendars/a/x.ics"}, CompRequest: CalendarCompRequest{Name: "VCALENDAR",
+		Comps: []CalendarCompRequest{{Name: "VEVENT", Props: []string{"SUMMARY"}}}, Expand: &CalendarExpandRequest{Start: start, End: end}}}
+	c.MultiGetCalendar(context.Background(), "/user/calendars/a/", mg)
+	if b.compReq == nil {
+		t.Fatal("backend not called")
+	}
+	if b.compReq.Name != "VCALENDAR" || len(b.compReq.Comps) != 1 || b.compReq.Comps[0].Name != "VEVENT" {
+		t.Errorf("component names of the selection lost: %+v", *b.compReq)
+	}
+	if b.compReq.Expand == nil || !b.compReq.Expand.Start.Equal(start) || !b.compReq.Expand.End.Equal(end) {
+		t.Errorf("expand range lost: %+v", b.compReq.Expand)
+	}
+}
